@@ -230,6 +230,21 @@ static void c02_case(const uint8_t *buf, size_t m, void *arg)
         violation(sig, cd, "key=%s tweak=%s in=%s real=%s spec=%s", hexs(key, 16), hexs(tweak, 8),
                   hexs(blk, 8), hexs(real, 8), hexs(ref, 8));
     }
+    if (c->path == 1) {
+        /* the same call with the tweak as the block, one buffer for all three arguments (in place, and the per-call
+         * tweak is an input like the block): the specification cipher of the tweak under itself */
+        uint8_t one[8];
+        memcpy(one, tweak, 8);
+        mantis_ecb_crypt_tweaked(one, one, one, &ks);
+        if (c->mode) ref_mantis_decrypt(key, tweak, c->rounds, tweak, ref);
+        else         ref_mantis_encrypt(key, tweak, c->rounds, tweak, ref);
+        ++g_cnt.evaluations;
+        if (memcmp(one, ref, 8) != 0) {
+            snprintf(sig, sizeof(sig), "C02/mantis%d/%s/per-call-tweak-is-the-block", c->rounds, c->mode ? "decrypt" : "encrypt");
+            snprintf(cd, sizeof(cd), "c02 %d %d %d %s", c->rounds, c->mode, c->path, hexs(buf, 32));
+            violation(sig, cd, "key=%s, one buffer %s as tweak, input and output: got %s, specification %s", hexs(key, 16), hexs(tweak, 8), hexs(one, 8), hexs(ref, 8));
+        }
+    }
 }
 
 /* fresh schedule == zero tweak; null tweak == zero tweak; over key||block families */
